@@ -459,6 +459,11 @@ def check(run: Run) -> None:
         for v in res.violations:
             raise tlc.TLCFailure(f"MuSig2Model violates {v.name}:\n{v.text[:600]}")
         run.tlc(res, f"M MuSig2Model {name}")
+    live = tlc.run("MuSig2Model", cfg_text=f"SPECIFICATION FairSpec\nCONSTANTS NSigners = {2 if thorough else 1}\nMaxTweaks = 1\nTweakVals = {{17}}\nNonceVals = {{3}}\nAdaptorVals = {{0, 5}}\nPROPERTY Completes\nCHECK_DEADLOCK FALSE\n",
+                   workers=4, timeout=3000)
+    for v in live.violations:
+        raise tlc.TLCFailure(f"MuSig2Model violates {v.name}:\n{v.text[:600]}")
+    run.tlc(live, "M MuSig2Model liveness")
     ring_cfg = ("SPECIFICATION Spec\nCONSTANTS Shapes <- ShapesC\nKeyVals = {%s}\nNonceVals = {3, 11}\nForgedVals = {%s}\nINVARIANT SignedVerifies\nINVARIANT ShapeMismatchFails\n"
                 "INVARIANT CommitOpens\nINVARIANT CommitAdds\nINVARIANT SecondGeneratorOnCurve\nCHECK_DEADLOCK FALSE\n") % (("1, 2, 9, 17, 30", "1, 6, 13") if thorough else ("1, 17, 30", "1, 6"))
     res = tlc.run("RingSigModel", cfg_text=ring_cfg, workers=16, timeout=6000)
